@@ -1,6 +1,127 @@
+(* C01 - eager(): synchronous prefix, then exactly the outcome of a plain Task.
+   Model-level content, over the scheduler model Sched/Model.v (current code, with the
+   future-handshake-flag capture/re-arm repair).  Proofs: Sched/EagerProofs.v (+ Sched/FrameFacts.v).
+
+   Vocabulary (Model.v / EagerProofs.v / ThrowProofs.v):
+     exec t c s            user code c run inside task t's step from state s, up to its end
+                           (ODone r) or its first suspension (OYield y frs k: it yielded y, its
+                           library frames are frs, its own continuation is k)
+     Spawn SEager child k  `aw = asynkit.eager(child)`; k receives the future id of aw
+     eager_done_state s1 r s1 plus one more future, finished with r's outcome
+     eager_cont_state s1 y frs kc
+                           s1 with the captured future's handshake flag (fblock) cleared, plus the
+                           continuation task (tcont_ = TEager y frs kc) with its pending future and
+                           its first-step handle HStep tn None appended to the ready queue
+     set_flag b s y        s with fblock of the future y set to b (nothing for a bare yield)
+     running_state s t     the state in which t's code runs (_must_cancel, _fut_waiter cleared,
+                           tcont_ = TRun, current = t)
+     finish_step t s o     Task.__step's treatment of the coroutine's outcome o *)
 From Coq Require Import QArith.
-From Asynkit Require Import Base.Prelude Sched.Model.
-(* placeholder: the C01 theorems land in Sched/EagerProofs.v *)
-Theorem C01_bind_ret : forall v f, bind (Ret v) f = f (RVal v).
-Proof. reflexivity. Qed.
-Print Assumptions C01_bind_ret.
+From RecordUpdate Require Import RecordUpdate.
+From Asynkit Require Import Base.Prelude Sched.Model Sched.ThrowProofs Sched.EagerProofs.
+Import RecordSetNotations.
+Open Scope nat_scope.
+
+(* eager(child) first runs child's whole prefix - up to its end or first suspension - inside
+   the caller's own step: same task id t, `current` unchanged, the child's events appended
+   to the log; only then does the caller continue (with the awaitable's future id) *)
+Theorem C01_sync_prefix :
+  forall t child k s,
+  let s1 := fst (exec t child s) in
+  exec t (Spawn SEager child k) s =
+  (let '(s1, o) := exec t child s in
+   match o with
+   | ODone r => exec t (k (RVal (Z.of_nat (length (futs s1))))) (eager_done_state s1 r)
+   | OYield y frs kc =>
+       exec t (k (RVal (Z.of_nat (length (futs s1))))) (eager_cont_state s1 y frs kc)
+   end) /\
+  current s1 = current s /\ (exists l, log s1 = log s ++ l) /\
+  length (tasks s) <= length (tasks s1).
+Proof. exact eager_sync_prefix. Qed.
+Print Assumptions C01_sync_prefix.
+
+(* the child returned or raised (any exception, BaseException and CancelledError included)
+   inside its prefix: exactly one new future, already finished with that outcome; no task,
+   no handle, ready queue and every other table unchanged; the caller receives its id *)
+Theorem C01_done_no_task :
+  forall t child k s s1 r,
+  exec t child s = (s1, ODone r) ->
+  let f := length (futs s1) in
+  let s2 := s1 <| futs := futs s1 ++ [mkFut (match r with RVal v => FResult v | RExc e => FExc e end)
+                                            [] false None None] |> in
+  exec t (Spawn SEager child k) s = exec t (k (RVal (Z.of_nat f))) s2 /\
+  getf s2 f = mkFut (match r with RVal v => FResult v | RExc e => FExc e end) [] false None None /\
+  fdone s2 f = true /\
+  (forall g, g <> f -> getf s2 g = getf s1 g) /\
+  tasks s2 = tasks s1 /\ ready s2 = ready s1 /\ handles s2 = handles s1 /\
+  locks s2 = locks s1 /\ conds s2 = conds s1 /\ events s2 = events s1 /\ blocks s2 = blocks s1 /\
+  timers s2 = timers s1 /\ now s2 = now s1 /\ current s2 = current s1 /\ log s2 = log s1 /\
+  errors s2 = errors s1.
+Proof.
+  intros t child k s s1 r E.
+  destruct (eager_done_no_task t child k s s1 r E) as (A & _ & B). split; [exact A|exact B].
+Qed.
+Print Assumptions C01_done_no_task.
+
+(* the child suspended: exactly one task is appended (the continuation TEager y frs kc, a C task
+   without waiter, not cancelled, owning a new pending future), exactly one handle (its first
+   step) is appended to the handle table and to the ready queue, a captured future is left with
+   its handshake flag CLEARED and otherwise untouched, nothing else changes; the caller receives
+   the task's future id *)
+Theorem C01_continuation :
+  forall t child k s s1 y frs kc,
+  exec t child s = (s1, OYield y frs kc) ->
+  let tn := length (tasks s1) in
+  let f := length (futs s1) in
+  let s2 := eager_cont_state s1 y frs kc in
+  exec t (Spawn SEager child k) s = exec t (k (RVal (Z.of_nat f))) s2 /\
+  tasks s2 = tasks s1 ++ [mkTask KC None f (TEager y frs kc) None false [] None] /\
+  gett s2 tn = mkTask KC None f (TEager y frs kc) None false [] None /\
+  getf s2 f = mkFut FPending [] false (Some tn) None /\
+  length (futs s2) = S (length (futs s1)) /\
+  handles s2 = handles s1 ++ [mkH (HStep tn None) false] /\
+  ready s2 = rq_append (ready s1) (length (handles s1)) 0%Q /\
+  (forall g, y = YFut g -> fblock (getf s2 g) = false) /\
+  (forall g, g < f -> getf s2 g = (if match y with YFut g' => Nat.eqb g g' | YNone => false end
+                                   then getf s1 g <| fblock := false |> else getf s1 g)) /\
+  locks s2 = locks s1 /\ conds s2 = conds s1 /\ events s2 = events s1 /\ blocks s2 = blocks s1 /\
+  timers s2 = timers s1 /\ now s2 = now s1 /\ current s2 = current s1 /\ log s2 = log s1 /\
+  errors s2 = errors s1.
+Proof. exact eager_continuation. Qed.
+Print Assumptions C01_continuation.
+
+(* the continuation task's first step (not cancelled in between): nothing of the coroutine runs;
+   the flag is re-armed and the captured yield goes through the very same finish_step that
+   a plain task goes through when its body (or its resumed coroutine) yields; afterwards the task
+   is an ordinary suspended task TSusp frs k, handled by the same model functions as any task *)
+Theorem C01_first_step_equiv :
+  (* eager continuation *)
+  (forall s tn y frs k,
+     tdone s tn = false -> tcont_ (gett s tn) = TEager y frs k -> tmustc (gett s tn) = false ->
+     step_task tn None s =
+       finish_step tn (set_flag true (running_state s tn) y) (OYield y frs k) <| current := None |> /\
+     tcont_ (gett (step_task tn None s) tn) = TSusp frs k) /\
+  (* plain task, first step: its body runs and the outcome goes to finish_step *)
+  (forall s t c,
+     tdone s t = false -> tcont_ (gett s t) = TNew c -> tmustc (gett s t) = false ->
+     step_task t None s =
+       (let '(s2, o) := exec t c (running_state s t) in finish_step t s2 o <| current := None |>)) /\
+  (* any suspended task, any step *)
+  (forall s t exc frs k,
+     tdone s t = false -> tcont_ (gett s t) = TSusp frs k ->
+     step_task t exc s =
+       (let '(s2, o) := run_cont t frs k (input_reply (step_input s t exc)) (running_state s t) in
+        finish_step t s2 o <| current := None |>)) /\
+  (* the flag a plain task finds set when its coroutine yields a future is the one re-armed here *)
+  (forall s f outer, fdone s f = false ->
+     await_fut s f outer = (set_flag true s (YFut f), LSusp (YFut f) (InFut f :: outer))).
+Proof.
+  split; [|split; [|split]].
+  - intros s tn y frs k Hd Hk Hm. split.
+    + apply step_eager_first; assumption.
+    + apply step_eager_first_cont with (y := y); assumption.
+  - exact step_new_eq.
+  - exact step_susp_eq.
+  - intros s f outer Hd. unfold await_fut. rewrite Hd. reflexivity.
+Qed.
+Print Assumptions C01_first_step_equiv.
